@@ -573,12 +573,15 @@ impl OsIpcReceiverSet {
 
     pub fn add(&mut self, receiver: OsIpcReceiver) -> Result<u64, UnixError> {
         let last_index = self.incrementor.next().unwrap();
-        let fd = receiver.consume_fd();
+        let fd = receiver.fd.get();
         let fd_token = Token(fd as usize);
         let poll_entry = PollEntry { id: last_index, fd };
         self.poll
             .registry()
             .register(&mut SourceFd(&fd), fd_token, Interest::READABLE)?;
+        // Registered: from here on the set owns the descriptor. (Had registration failed,
+        // dropping `receiver` would have closed it.)
+        receiver.consume_fd();
         self.pollfds.insert(fd_token, poll_entry);
         Ok(last_index)
     }
